@@ -85,7 +85,8 @@ func (c *typeDefFirstChecker) receiverType(e ast.Expr) string {
 	case *ast.IndexListExpr:
 		return c.receiverType(e.X)
 	default:
-		panic("unreachable")
+		// Not a valid receiver type, but the parser accepts it: func (struct{}) M() {}
+		return ""
 	}
 }
 
